@@ -1367,3 +1367,80 @@ func c16SharedManglersStateless(c *Ctx, rule string) {
 		c.okTrivial(rule, "repo", token.NoPos, "no mangler is kept in a package-level variable")
 	}
 }
+
+// c16ElemOfNonNil: Elem() of a nil pointer is the zero reflect.Value, and every method but IsValid panics on it.
+// In the transform package, wherever a function takes Elem() of one of its reflect.Value *parameters* and goes on
+// to use the result, a dominating test must have established that the parameter is not nil: x.IsNil() false, or
+// a false result of a nil-ness helper that covers pointer kinds (D25 made subVal recurse through pointers; a
+// nil guard narrowed to maps and slices lets an unset *[]time.Duration through).
+func c16ElemOfNonNil(c *Ctx, rule string) {
+	w := c.W
+	helperCoversPtr := func(h *ssa.Function) bool {
+		h = origin(h)
+		if len(h.Blocks) == 0 || len(h.Params) != 1 {
+			return false
+		}
+		for _, i := range allInstrs(h) {
+			ci, ok := i.(*ssa.Call)
+			if !ok || calleeFullName(ci) != "(reflect.Value).IsNil" || ci.Call.Args[0] != ssa.Value(h.Params[0]) {
+				continue
+			}
+			if _, ks := kindsAtSwitch(ci.Block()); ks != nil && ks[kPtr] {
+				// and its result is what the helper returns
+				for _, r := range returnsOf(h) {
+					if retVals(r)[0] == ssa.Value(ci) {
+						return true
+					}
+				}
+			}
+		}
+		return false
+	}
+	n := 0
+	for _, f := range w.funcsIn("transform") {
+		for _, i := range allInstrs(f) {
+			el, ok := i.(*ssa.Call)
+			if !ok || calleeFullName(el) != "(reflect.Value).Elem" {
+				continue
+			}
+			x := el.Call.Args[0]
+			if p, ok := x.(*ssa.Parameter); !ok || p.Parent() != f {
+				continue
+			}
+			// only pointer arms: the site is in the Ptr arm of a kind switch (Interface payloads are handled elsewhere)
+			_, ks := kindsAtSwitch(el.Block())
+			if ks == nil || !ks[kPtr] || len(ks) != 1 {
+				continue
+			}
+			used := false
+			for _, r := range *el.Referrers() {
+				if cc, ok := r.(*ssa.Call); ok && calleeFullName(cc) == "(reflect.Value).IsValid" {
+					continue
+				}
+				used = true
+			}
+			if !used {
+				continue
+			}
+			n++
+			nonNil := false
+			for _, ec := range condsDominating(el.Block()) {
+				cc, ok := ec.Cond.(*ssa.Call)
+				if !ok || ec.Val || len(cc.Call.Args) == 0 || cc.Call.Args[0] != x {
+					continue
+				}
+				if calleeFullName(cc) == "(reflect.Value).IsNil" {
+					nonNil = true
+				}
+				if h := staticCallee(cc); h != nil && helperCoversPtr(h) {
+					nonNil = true
+				}
+			}
+			c.check(nonNil, rule, relName(f)+"#"+canon(x), el.Pos(), "Elem() of the pointer-kind parameter is taken only after a nil test that covers pointers returned false",
+				"Elem() of the pointer-kind parameter "+canon(x)+" is used without a dominating nil test that covers pointer kinds: for an unset (nil) pointer the result is the zero reflect.Value and the next method call on it panics")
+		}
+	}
+	if n == 0 {
+		c.okTrivial(rule, "transform", token.NoPos, "no function of the transform package dereferences a pointer-kind parameter")
+	}
+}
